@@ -346,7 +346,7 @@ theorem exG_out (i : Nat) : exG.get (i + 2) = { node := .other "out-of-range", s
   simp [PGraph.get, exG]
 
 theorem exHyp : Hyp exG exInp exE := by
-  refine ⟨?_, ?_, ?_, by decide, ?_⟩
+  refine ⟨?_, ?_, ?_, ?_, by decide, ?_⟩
   · intro i c hc
     match i with
     | 0 => simp [kidsOf, PGraph.get, exG] at hc
@@ -360,6 +360,21 @@ theorem exHyp : Hyp exG exInp exE := by
     | 1 =>
       simp [den, denote, denoteStep, PGraph.get, exG, exInp] at h
       subst h; rfl
+    | c + 2 => simp [den, denote, denoteStep, exG_out] at h
+  · intro c a s h hs
+    match c with
+    | 0 =>
+      have h1 : (den exG exInp 0).map (·.shape) = some [2] := by rfl
+      have h2 : staticShape (exG.get 0).shape = some [2] := by rfl
+      rw [h] at h1; rw [h2] at hs
+      simp only [Option.map_some, Option.some.injEq] at h1 hs
+      rw [h1, hs]
+    | 1 =>
+      have h1 : (den exG exInp 1).map (·.shape) = some [2] := by rfl
+      have h2 : staticShape (exG.get 1).shape = some [2] := by rfl
+      rw [h] at h1; rw [h2] at hs
+      simp only [Option.map_some, Option.some.injEq] at h1 hs
+      rw [h1, hs]
     | c + 2 => simp [den, denote, denoteStep, exG_out] at h
   · intro j hs _
     match j with
@@ -406,7 +421,7 @@ theorem ex2Gen : ∃ prog, generate ex2G 3 ex2E = .ok prog ∧
     prog.memo = [(3, "_pt_tmp"), (2, "_pt_tmp_1"), (1, "_pt_tmp_0"), (0, "x")] := ⟨_, rfl, rfl⟩
 
 theorem ex2Hyp : Hyp ex2G ex2Inp ex2E := by
-  refine ⟨?_, ?_, ?_, by decide, ?_⟩
+  refine ⟨?_, ?_, ?_, ?_, by decide, ?_⟩
   · intro i c hc
     match i with
     | 0 => simp [kidsOf, PGraph.get, ex2G] at hc
@@ -425,6 +440,30 @@ theorem ex2Hyp : Hyp ex2G ex2Inp ex2E := by
     | 2 =>
       have : (den ex2G ex2Inp 2).map (·.shape.length) = some 1 := by rfl
       rw [h] at this; simpa [PGraph.get, ex2G] using this
+    | 3 =>
+      have : (den ex2G ex2Inp 3).isSome = false := by rfl
+      rw [h] at this; simp at this
+    | c + 4 => simp [den, denote, denoteStep, ex2G_out] at h
+  · intro c a s h hs
+    match c with
+    | 0 =>
+      have h1 : (den ex2G ex2Inp 0).map (·.shape) = some [2] := by rfl
+      have h2 : staticShape (ex2G.get 0).shape = some [2] := by rfl
+      rw [h] at h1; rw [h2] at hs
+      simp only [Option.map_some, Option.some.injEq] at h1 hs
+      rw [h1, hs]
+    | 1 =>
+      have h1 : (den ex2G ex2Inp 1).map (·.shape) = some [2] := by rfl
+      have h2 : staticShape (ex2G.get 1).shape = some [2] := by rfl
+      rw [h] at h1; rw [h2] at hs
+      simp only [Option.map_some, Option.some.injEq] at h1 hs
+      rw [h1, hs]
+    | 2 =>
+      have h1 : (den ex2G ex2Inp 2).map (·.shape) = some [2] := by rfl
+      have h2 : staticShape (ex2G.get 2).shape = some [2] := by rfl
+      rw [h] at h1; rw [h2] at hs
+      simp only [Option.map_some, Option.some.injEq] at h1 hs
+      rw [h1, hs]
     | 3 =>
       have : (den ex2G ex2Inp 3).isSome = false := by rfl
       rw [h] at this; simp at this
